@@ -11,6 +11,8 @@ import (
 	"encoding/json"
 	"fmt"
 	"io"
+	"os"
+	"path/filepath"
 	"runtime"
 	"strings"
 	"testing/iotest"
@@ -557,6 +559,9 @@ func main() {
 	if c.Mode == "child" {
 		common.ChildLoop(3000, handle)
 		return
+	}
+	if c.Out != "" {
+		os.Remove(filepath.Join(c.Out, "stats.json")) // a crash must not leave an older run's statistics behind
 	}
 	c.SetHeader(header)
 	c.PerShard = 250
